@@ -64,6 +64,32 @@ GUARD_INDEPENDENT = {"C05", "C13", "C19"}
 # properties that depend on a fact although none of their suites is listed for it in FACT_USERS
 FACT_EXTRA_PROPS = {"bloomLn": {"C06"}}  # C06 pins the documented sizing doubles (C06_sizing_constants_documented)
 
+# Which properties a fact is ABOUT (longest matching prefix wins).  When the translator can no longer read
+# a fact, the models keep its previous definition.  For the properties the fact is about that is a broken
+# tie (their theorems pin or use the very value that can no longer be read from the source).  Every other
+# property that merely exercises the same structure stays tied to the code by its correspondence suite,
+# which runs the model with the previous value against the code as it is now and reports any difference
+# on the lines that property looks at; for those properties the unread fact is recorded in the evidence.
+FACT_OWNERS = {
+    "fnv": {"C18", "C06"},
+    "bloomLn": {"C07", "C06"},
+    "cmsLn": {"C07"},
+    "expGrow": {"C09"},
+    "rot": {"C10"},
+    "cmsAddClamp": {"C16"},
+    "cmsRemoveKeep": {"C16"},
+    "cmsTotalMax": {"C16", "C14"},
+    "cbfAddClamp": {"C16"},
+    "qf": {"C04"},
+    "onDisk": {"C11", "C06"},
+    "bloom": {"C06", "C05"},
+    "cbf": {"C06", "C05"},
+    "cms": {"C06", "C05"},
+    "exp": {"C06", "C05"},
+    "cuckoo": {"C06", "C05"},
+    "ccf": {"C06", "C05"},
+}
+
 READ_ONLY = r"\.(chk|stats|obs|export|hashes|jacc|view)\b"
 COUNTERS = ["count", "added", "total", "unique", "subcounts", "estimate", "cfpr", "setbits", "nblooms"]
 LOADS = r"\.(load|loadraw|reopen|loadmem|export)\b"
